@@ -101,7 +101,7 @@ def run_deconv1d(c, rec):
         require(maxdiff(xe, A(c["phantom_array"])) == 0, "exactSolution is not the phantom that was passed")
     require(close(tp.exactData, ref(xe), 1e-10), "exactData is not the documented operator applied to the exact solution")
     sig = c["noise_std"] if c["noise_type"] == "gaussian" else np.abs(ref(xe)) * c["noise_std"]
-    if np.min(np.asarray(sig)) <= 1e-8 * np.max(np.asarray(sig)):
+    if np.min(np.asarray(sig)) <= 1e-4 * np.max(np.asarray(sig)):
         # an exact datum that is zero up to round-off (1e-17 by symmetry of the phantom) gives a variance of 1e-38: the scaled
         # noise model is degenerate there and its log-density is round-off noise times 1e19
         rec.inconc("vanishing_noise_scale")
@@ -247,7 +247,7 @@ def run_deconv2d(c, rec):
     ye = conv2_direct(xe.reshape(dim, dim), P, bc).ravel()
     require(close(tp.exactData, ye, 1e-9), "exactData is not the documented operator applied to the exact solution")
     sig = c["noise_std"] if c["noise_type"] == "gaussian" else np.abs(ye) * c["noise_std"]
-    if np.min(np.asarray(sig)) <= 1e-8 * np.max(np.asarray(sig)):
+    if np.min(np.asarray(sig)) <= 1e-4 * np.max(np.asarray(sig)):
         rec.inconc("vanishing_noise_scale")   # see Deconvolution1D: exact data that vanish up to FFT round-off
         return
     require(close(np.asarray(tp.data) - np.asarray(tp.exactData), sig * e, 1e-9), "data - exactData is not noise of the stated type/level")
